@@ -623,6 +623,22 @@ func runAll(c *run.Ctx) {
 			}
 		}
 	}
+	cidx := 0
+	for _, cn := range []int{255, 256, 257, 1023, 1024, 1025} {
+		for _, kind := range []int{4, 5} {
+			cidx++
+			cn, kind, cidx := cn, kind, cidx
+			ct := model.CTypes[cidx%4]
+			c.Case("counts", cidx, func(k *run.K) {
+				t := model.SizedTree(kind, cn, ct)
+				k.Nontrivial(fmt.Sprint("counts", kind, cn, ct))
+				for v := 0; v < 3; v++ {
+					one(k, t, drawOpts(k.Rng, t, 0, (v*7+cidx)%16))
+					k.Count("encodings", 1)
+				}
+			})
+		}
+	}
 	// rejection families
 	for i := 0; i < c.N(1500, 20000); i++ {
 		c.Case("reject", i, func(k *run.K) {
